@@ -245,7 +245,7 @@ def _enum_cases(max_nodes, index, count):
 
 def plan(tier, seed):
     nshards = 16
-    examples = 250 if tier == "quick" else 1500
+    examples = 250 if tier == "quick" else 6000
     max_nodes = 4 if tier == "quick" else 6
     tasks = [{"engine": "enum", "max_nodes": max_nodes, "index": i, "count": nshards} for i in range(nshards)]
     tasks += [{"engine": "hyp", "examples": examples, "seed": seed * 1000 + i} for i in range(nshards)]
